@@ -2,14 +2,13 @@
    (1) discrete part: skeletons (gate kind + wires) of the circuits emitted by one_qubit_decomposition (five rotation
        conventions), two_qubit_decomposition (0/1/2/3-CNOT templates) and multi_qubit_decomposition (cosine-sine step),
        transcribed from pennylane/ops/op_math/decompositions/unitary_decompositions.py, and CNOT counting;
-   (2) numeric part: interval arithmetic over Q, complex intervals, and the checker that multiplies a circuit of
+   (2) numeric part: fixed-point interval arithmetic (integers scaled by 2^60, outward rounding), complex intervals, and the checker that multiplies a circuit of
        enclosed gate matrices column by column and bounds its distance to an exactly given unitary over Q(zeta_8).
    No proofs here (Num/SynthProofs.v). *)
-From Coq Require Import List Arith ZArith QArith Qminmax Qabs Bool.
+From Coq Require Import List Arith ZArith Bool Uint63.
 From PLV Require Import Lin.Vec.
 Import ListNotations.
 
-Local Close Scope Q_scope.
 Local Open Scope nat_scope.
 (* ------------------------------------------------------------------ skeletons *)
 Inductive gk := GRZ | GRY | GRX | GRot | GCNOT | GQU | GPhase | GSelZ | GSelY | GOther.
@@ -89,53 +88,90 @@ Definition skel_check (e : entry) (s : list sop) : bool :=
 Definition check_skel (x : entry * list sop * nat) : bool :=
   let '(e, s, k) := x in skel_check e s && Nat.eqb (cnot_count s) k.
 
-(* ------------------------------------------------------------------ interval arithmetic over Q *)
-Local Open Scope Q_scope.
-Definition itv := (Q * Q)%type.      (* [lo, hi] *)
-Definition ipt (q : Q) : itv := (q, q).
-Definition iadd (a b : itv) : itv := (Qred (fst a + fst b), Qred (snd a + snd b)).
-Definition iopp (a : itv) : itv := (Qopp (snd a), Qopp (fst a)).
-Definition isub (a b : itv) : itv := iadd a (iopp b).
-Definition qmin4 (a b c d : Q) : Q := Qmin (Qmin a b) (Qmin c d).
-Definition qmax4 (a b c d : Q) : Q := Qmax (Qmax a b) (Qmax c d).
-Definition imul (a b : itv) : itv :=
-  let p1 := Qred (fst a * fst b) in let p2 := Qred (fst a * snd b) in
-  let p3 := Qred (snd a * fst b) in let p4 := Qred (snd a * snd b) in
-  (qmin4 p1 p2 p3 p4, qmax4 p1 p2 p3 p4).
-(* largest absolute value in the interval *)
-Definition imag_max (a : itv) : Q := Qmax (Qabs (fst a)) (Qabs (snd a)).
-Definition iwf (a : itv) : bool := Qle_bool (fst a) (snd a).
+(* ------------------------------------------------------------------ fixed-point interval arithmetic
+   An interval (lo, hi) of integers stands for [lo / K, hi / K], K = 2^60.  Products are rounded outward. *)
+Local Close Scope nat_scope.
+Local Open Scope Z_scope.
+Definition KB : Z := 60.
+Definition K : Z := 2 ^ KB.
+Definition fi := (Z * Z)%type.
+Definition fpt (m : Z) : fi := (m, m).
+Definition fadd (a b : fi) : fi := (fst a + fst b, snd a + snd b).
+Definition fopp (a : fi) : fi := (- snd a, - fst a).
+Definition fsub (a b : fi) : fi := fadd a (fopp b).
+Definition dn (p : Z) : Z := p / K.             (* floor *)
+Definition up (p : Z) : Z := - ((- p) / K).      (* ceiling *)
+Definition min4 (a b c d : Z) : Z := Z.min (Z.min a b) (Z.min c d).
+Definition max4 (a b c d : Z) : Z := Z.max (Z.max a b) (Z.max c d).
+Definition fmul (a b : fi) : fi :=
+  let p1 := fst a * fst b in let p2 := fst a * snd b in let p3 := snd a * fst b in let p4 := snd a * snd b in
+  (dn (min4 p1 p2 p3 p4), up (max4 p1 p2 p3 p4)).
+Definition fabsmax (a : fi) : Z := Z.max (Z.abs (fst a)) (Z.abs (snd a)).
 
-Definition ci := (itv * itv)%type.   (* real part, imaginary part *)
-Definition czero : ci := (ipt 0, ipt 0).
-Definition cone : ci := (ipt 1, ipt 0).
-Definition cadd (x y : ci) : ci := (iadd (fst x) (fst y), iadd (snd x) (snd y)).
+Definition ci := (fi * fi)%type.   (* real part, imaginary part *)
+Definition czero : ci := (fpt 0, fpt 0).
+Definition cone : ci := (fpt K, fpt 0).
+Definition cadd (x y : ci) : ci := (fadd (fst x) (fst y), fadd (snd x) (snd y)).
 Definition cmul (x y : ci) : ci :=
-  (isub (imul (fst x) (fst y)) (imul (snd x) (snd y)), iadd (imul (fst x) (snd y)) (imul (snd x) (fst y))).
-Definition csub (x y : ci) : ci := (isub (fst x) (fst y), isub (snd x) (snd y)).
-(* upper bound of |z|^2 over the box *)
-Definition cnorm2_ub (x : ci) : Q := imag_max (fst x) * imag_max (fst x) + imag_max (snd x) * imag_max (snd x).
+  (fsub (fmul (fst x) (fst y)) (fmul (snd x) (snd y)), fadd (fmul (fst x) (snd y)) (fmul (snd x) (fst y))).
+Definition csub (x y : ci) : ci := (fsub (fst x) (fst y), fsub (snd x) (snd y)).
+(* upper bound of |z|^2 * K^2 over the box *)
+Definition cnorm2_ub (x : ci) : Z := fabsmax (fst x) * fabsmax (fst x) + fabsmax (snd x) * fabsmax (snd x).
 
 Definition igate := gate ci.
 Definition i_basis := @basis ci czero cone.
 Definition i_capply := @capply ci czero cadd cmul.
 
-(* exact elements of Q(zeta_8): a + b z + c z^2 + d z^3, z = exp(i pi/4);  h encloses sqrt(1/2) *)
-Definition z8 := (Q * Q * Q * Q)%type.
-Definition half_ok (h : itv) : bool := Qle_bool 0 (fst h) && Qle_bool (fst h * fst h) (1 # 2) && Qle_bool (1 # 2) (snd h * snd h).
-Definition z8_encl (h : itv) (x : z8) : ci :=
+(* the bound 1e-7 on |.|, i.e. 1e-14 on |.|^2, scaled by K^2 (rounded down) *)
+Definition bound2 : Z := (K * K) / 100000000000000.
+
+Fixpoint col_ok (b2 : Z) (got want : list ci) : bool :=
+  match got, want with
+  | [], [] => true
+  | g :: gs, w :: ws => (cnorm2_ub (csub g w) <=? b2) && col_ok b2 gs ws
+  | _, _ => false
+  end.
+
+(* U is given by COLUMNS, as enclosures; column c is compared with the circuit applied to basis state c *)
+Fixpoint cols_check (n : nat) (gates : list igate) (b2 : Z) (c : nat) (Ucols : list (list ci)) : bool :=
+  match Ucols with
+  | [] => true
+  | col :: r => col_ok b2 (i_capply n gates (i_basis n c)) col && cols_check n gates b2 (S c) r
+  end.
+Definition dist_check (n : nat) (gates : list igate) (Ucols : list (list ci)) (b2 : Z) : bool :=
+  Nat.eqb (length Ucols) (2 ^ n)%nat && cols_check n gates b2 0%nat Ucols.
+
+(* ---- exact data -> enclosures (computed here, not by the harness) *)
+Definition qz := (Z * Z)%type.                  (* num / den, den > 0 *)
+Definition f_of_qz (q : qz) : fi := let '(a, d) := q in ((a * K) / d, - ((- a * K) / d)).
+Definition qz_ok (q : qz) : bool := 0 <? snd q.
+(* dyadic float m * 2^e *)
+Definition f_of_float (m e : Z) : fi :=
+  let s := e + KB in
+  if 0 <=? s then fpt (m * 2 ^ s) else (m / 2 ^ (- s), - ((- m) / 2 ^ (- s))).
+(* h encloses sqrt(1/2):  0 <= lo, 0 <= hi, lo^2 <= K^2/2 <= hi^2 *)
+Definition half_ok (h : fi) : bool := (0 <=? fst h) && (0 <=? snd h) && (2 * (fst h * fst h) <=? K * K) && (K * K <=? 2 * (snd h * snd h)).
+(* exact elements of Q(zeta_8): a + b z + c z^2 + d z^3, z = exp(i pi/4): real part a + (b-d) sqrt(1/2), imaginary part c + (b+d) sqrt(1/2) *)
+Definition z8 := (qz * qz * qz * qz)%type.
+Definition qz_sub (x y : qz) : qz := (fst x * snd y - fst y * snd x, snd x * snd y).
+Definition qz_add (x y : qz) : qz := (fst x * snd y + fst y * snd x, snd x * snd y).
+Definition z8_ok (x : z8) : bool := let '(a, b, c, d) := x in qz_ok a && qz_ok b && qz_ok c && qz_ok d.
+Definition z8_encl (h : fi) (x : z8) : ci :=
   let '(a, b, c, d) := x in
-  (iadd (ipt a) (imul (ipt (b - d)) h), iadd (ipt c) (imul (ipt (b + d)) h)).
+  (fadd (f_of_qz a) (fmul (f_of_qz (qz_sub b d)) h), fadd (f_of_qz c) (fmul (f_of_qz (qz_add b d)) h)).
 
-Definition col_ok (b2 : Q) (h : itv) (got : list ci) (want : list z8) : bool :=
-  Nat.eqb (length got) (length want) &&
-  forallb (fun p => Qle_bool (cnorm2_ub (csub (fst p) (z8_encl h (snd p)))) b2) (combine got want).
+(* ---- compact literals for the generated case files: numbers are lists of 62-bit limbs (primitive integers) *)
+Definition limbs (l : list int) : Z := fold_right (fun a acc => Uint63.to_Z a + 4611686018427387904 * acc) 0 l.
+Definition zp (l : list int) : Z := limbs l.
+Definition zn (l : list int) : Z := - limbs l.
+Definition G4 (a b c d : Z) : ci := ((a, b), (c, d)).          (* enclosure on the grid: [a,b] + i [c,d] *)
+Definition FP (mr er mi ei : Z) : ci := (f_of_float mr er, f_of_float mi ei).   (* exact complex float *)
+Definition mkG (ws : list nat) (M : list (list ci)) : igate := (ws, M).
+Definition Z8 (a b c d : qz) : z8 := (a, b, c, d).
+Definition QZ (a d : Z) : qz := (a, d).
 
-(* U is given by COLUMNS (list of columns, each a list of z8 entries) *)
-Definition dist_check (n : nat) (gates : list igate) (Ucols : list (list z8)) (h : itv) (b2 : Q) : bool :=
-  half_ok h && Nat.eqb (length Ucols) (2 ^ n)%nat &&
-  forallb (fun p => col_ok b2 h (i_capply n gates (i_basis n (fst p))) (snd p)) (combine (seq 0 (2 ^ n)%nat) Ucols).
-
+Record dcase := DC { dc_n : nat; dc_gates : list igate; dc_U : list (list z8); dc_h : fi }.
 (* check_case for the numeric tie *)
-Definition check_dist (x : nat * list igate * list (list z8) * itv * Q) : bool :=
-  let '(n, gates, Ucols, h, b2) := x in dist_check n gates Ucols h b2.
+Definition check_dist (x : dcase) : bool :=
+  half_ok (dc_h x) && forallb (forallb z8_ok) (dc_U x) &&
+  dist_check (dc_n x) (dc_gates x) (map (map (z8_encl (dc_h x))) (dc_U x)) bound2.
